@@ -652,8 +652,9 @@ def check_modules(ctx, rule, anchored, rest, floor=1):
         m = ctx.P.module(mn)
         relevant = []
         for fd in res[mn]:
-            if mn in anchored or (fd.attr and owner.get(fd.attr, set()) & set(anchored)):
-                relevant.append(fd)
+            along = [a for a in str(fd.path).replace("[", ".").split(".")[1:] if a.isidentifier()]
+            if mn in anchored or (fd.attr and owner.get(fd.attr, set()) & set(anchored)) or any(owner.get(a, set()) & set(anchored) for a in along):
+                relevant.append(fd)  # ... or reaches, along its path (self.fluid.alpha.bounds_error), an attribute of such a class
         if mn in anchored and not relevant:
             ctx.ok(
                 rule, f"{mn}:no in-place write through a view", m.relpath,
